@@ -52,6 +52,10 @@ def gen(rng, tier):
             bconf += "harmonicWalls {\n name hw\n" + tl + " colvars e\n upperWalls %s\n forceConstant %s\n}\n" % (num(uw), num(kw))
         seed = rng.randint(1, 1 << 30)
         setup = ["m.opt dt %s" % fbits(dt), "m.opt rng %d" % seed, cfg(conf)] + ([cfg(bconf)] if bconf else [])
+        ckpt = (k % 2 == 1) and tsf == 1
+        ckpt_pfx = "/tmp/cv-c17-ck%d" % k
+        if ckpt:
+            setup = setup + ["m.opt prefix %s" % ckpt_pfx, "m.opt restartfreq 1"]
         mext_line = "M.ext e 0 k=%s mass=%s dt=%s gamma=%s sigma=%s langevin=%d width=%s rl=%s ru=%s haslo=%d hasup=%d kb=%s cb=%s kw=%s uw=%s tsf=%d" % (
             fbits(kext), fbits(mext), fbits(dt), fbits(gam), fbits(sig), 1 if g != 0.0 else 0, fbits(w), fbits(lb), fbits(ub),
             1 if refl_lo else 0, 1 if refl_hi else 0, fbits(kb), fbits(cb), fbits(kw), fbits(uw), tsf)
@@ -62,7 +66,7 @@ def gen(rng, tier):
             x = uw + rng.uniform(0.05, 0.4)       # beyond the wall from the start: the bypassing bias acts on the atoms at (nearly) every step
         x0 = x
         hist = []
-        t = 0; segs = 0
+        t = 0; segs = 0; since = 0
         prev_boundary = True
         while t < nsteps:
             boundary = None
@@ -86,11 +90,18 @@ def gen(rng, tier):
                 lines.append(pos(0, 0.0, 0.0, x))
             if boundary == "restart":
                 pfx = "/tmp/cv-c17-%d-%d" % (k, segs); segs += 1
-                lines += ["m.save " + pfx, "m.new 1"] + setup + [mext_line, "m.load " + pfx, pos(0, 0.0, 0.0, x), "m.step"]
+                if ckpt and since >= 2:
+                    # resume from the checkpoint the module wrote by itself during the last step (colvarsRestartFrequency 1): it must describe
+                    # the same instant as a state saved after the step
+                    lines += ["M.checkpoint " + ckpt_pfx, "m.new 1"] + setup + [mext_line, "m.load " + ckpt_pfx, pos(0, 0.0, 0.0, x), "m.step"]
+                else:
+                    lines += ["m.save " + pfx, "m.new 1"] + setup + [mext_line, "m.load " + pfx, pos(0, 0.0, 0.0, x), "m.step"]
             elif boundary == "cont":
                 lines.append("m.step cont")
             else:
-                lines.append("m.step"); t += 1
+                lines.append("m.step"); t += 1; since += 1
+            if boundary == "restart":
+                since = 0
             prev_boundary = boundary is not None
             it_done = max(t - 1, 0)
             if it_done % tsf != 0:
